@@ -6,6 +6,7 @@ CONSTANTS
   MaxT = 100
   StartLo = 21
   RelPts = {0}
+  RestartForgetsLast = FALSE
   Offsets <- MCOffsetsAll
   Starts <- MCStartsAll
   Deltas <- MCDeltasAll
@@ -13,4 +14,4 @@ CONSTANTS
 INIT Init
 NEXT Next
 VIEW View
-INVARIANTS TypeOK ValidNow Short Advertised NextServedNext LearnedKeepsVerifying Deterministic
+INVARIANTS TypeOK ValidNow Short Advertised NextServedNext LearnedKeepsVerifying LearnedSurvivesRestart Deterministic
